@@ -28,26 +28,70 @@ theorem C11_allows_meaning (d : Nat) :
 
 end Scalibr.Upgrade
 
+namespace Scalibr.Upgrade
+
+/-
+The version order.  All C11 models read the ecosystem's comparator as a rank on version identifiers.
+`C11_rank_exists_iff`: such a rank exists for a set of versions exactly when the comparator is a total
+preorder on it; `C11_rank_is_order_partial`: then "rank a < rank b" IS "cmp a b = lt".  Maven's comparator is
+not a total preorder on all accepted strings (C07_maven_trans_fails: 1 < 1.foo < 1rc, 1 > 1rc — shape of
+`C11_no_rank_of_cycle`), so the upwardness theorems below are `_partial`: they speak about version sets on
+which the real comparator is one.  The harness obtains the ranks by sorting with the real comparator.
+-/
+theorem C11_rank_exists_iff {α : Type} (cmp : α → α → Ordering) (vs : List α) :
+    (∃ rank, RankFor cmp vs rank) ↔ TotalPreorderOn cmp vs := rank_exists_iff cmp vs
+
+theorem C11_rank_is_order_partial {α : Type} (cmp : α → α → Ordering) (vs : List α) (rank : α → Nat)
+    (R : RankFor cmp vs rank) (a b : α) (ha : a ∈ vs) (hb : b ∈ vs) :
+    (rank a < rank b ↔ cmp a b = .lt) ∧ (rank a ≤ rank b ↔ cmp a b ≠ .gt) ∧ (rank a = rank b ↔ cmp a b = .eq) := by
+  rw [R a ha b hb]
+  refine ⟨Nat.compare_eq_lt.symm, ?_, Nat.compare_eq_eq.symm⟩
+  rw [ne_eq, Nat.compare_eq_gt]; omega
+
+theorem C11_no_rank_of_cycle {α : Type} (cmp : α → α → Ordering) (a b c : α)
+    (h1 : cmp a b = .lt) (h2 : cmp b c = .lt) (h3 : cmp a c = .gt) : ¬ ∃ rank, RankFor cmp [a, b, c] rank :=
+  no_rank_of_cycle cmp a b c h1 h2 h3
+
+end Scalibr.Upgrade
+
 namespace Scalibr.Override
 open Scalibr.Upgrade
 
-/-- Override, one round, one package: the pinned version is one of the known versions, not below the
-resolved one (strictly above it when the comparator separates distinct versions), its difference to
-the resolved version is allowed by the package's level, the level is not None, and strictly fewer of
-the vulnerabilities that affected the resolved version affect it.  Any universe, any vulnerabilities. -/
+/-- Override, one round, one package — the part that needs no assumption: the pinned version is one of the
+known versions, its difference to the resolved version is allowed by the package's level, the level is not
+None, and strictly fewer of the vulnerabilities that affected the resolved version affect it. -/
 theorem C11_override_step (u : U) (level vk b : Nat) (h : round u level vk = some b) :
     level ≠ lNone ∧ b ∈ u.vs ∧ allows level (u.diff vk b) = true ∧
-    (Sorted u.vs → vk ≤ b) ∧ (StrictSorted u.vs → vk < b) ∧
     ((vulnsAt u vk).filter (u.aff · b)).length < (vulnsAt u vk).length := by
   obtain ⟨h1, h2, h3, h4⟩ := round_spec u level vk b h
-  exact ⟨h1, versionsGreater_sub _ _ b h2, h3, fun hs => versionsGreater_ge _ _ hs b h2,
-    fun hs => versionsGreater_gt _ _ hs b h2, h4⟩
+  exact ⟨h1, versionsGreater_sub _ _ _ b h2, h3, h4⟩
 
-/-- The level applies to the ORIGINAL base: after any number of re-resolution rounds the version
-reached is not below the first resolved version and the difference between the two is allowed. -/
-theorem C11_cumulative (u : U) (level : Nat) (resolve : Nat → Nat) (L : DiffClassLaws u.diff)
-    (hp : HonoursPins resolve) (hs : Sorted u.vs) (fuel vk : Nat) :
-    vk ≤ loop u level resolve fuel vk ∧ allows level (u.diff vk (loop u level resolve fuel vk)) = true := by
+/-- … and it is upward: not below the resolved version when the version list is sorted by the comparator
+(`slices.SortFunc`'s contract, which needs the comparator to be a total preorder), strictly above it when
+moreover no two listed versions compare equal.  Without sortedness the model can move down
+(`C11_override_unsorted_witness`); with equal-comparing spellings it can move sideways
+(`C11_override_equal_version_witness`). -/
+theorem C11_override_upward_partial (u : U) (level vk b : Nat) (h : round u level vk = some b) :
+    (Sorted u.rank u.vs → u.rank vk ≤ u.rank b) ∧ (StrictSorted u.rank u.vs → u.rank vk < u.rank b) := by
+  obtain ⟨_, h2, _, _⟩ := round_spec u level vk b h
+  exact ⟨fun hs => versionsGreater_ge _ _ _ hs b h2, fun hs => versionsGreater_gt _ _ _ hs b h2⟩
+
+theorem C11_override_unsorted_witness :
+    round ⟨[5, 1], id, fun _ _ => dPatch, 1, fun _ x => x = 5⟩ lMajor 5 = some 1 := by decide
+
+/-- two spellings of one version (identifiers 0 and 1, both rank 0), a record whose explicit `versions` list names
+only the first: the scan "upgrades" 1.0 to 1.0.0.  Reachable only through an advisory that lists version strings;
+a range-only advisory cannot tell equal-comparing versions apart. -/
+theorem C11_override_equal_version_witness :
+    let u : U := ⟨[0, 1, 2], fun x => if x = 2 then 1 else 0, fun a b => if a = b then dSame else dPatch, 1, fun _ x => x = 0⟩
+    Sorted u.rank u.vs ∧ round u lMajor 0 = some 1 ∧ u.rank 0 = u.rank 1 := by
+  refine ⟨by unfold Sorted; decide, by decide, by decide⟩
+
+/-- The level applies to the ORIGINAL base (one package): after any number of rounds the version reached is
+not below the first resolved version and the difference between the two is allowed.  Assumes the
+difference classes behave like semver's (`DiffClassLaws`) and a sorted version list. -/
+theorem C11_cumulative_partial (u : U) (level : Nat) (L : DiffClassLaws u.diff) (hs : Sorted u.rank u.vs) (fuel vk : Nat) :
+    u.rank vk ≤ u.rank (loop u level fuel vk) ∧ allows level (u.diff vk (loop u level fuel vk)) = true := by
   induction fuel generalizing vk with
   | zero => simp [loop, L.refl, allows, dSame]
   | succ f ih =>
@@ -55,42 +99,45 @@ theorem C11_cumulative (u : U) (level : Nat) (resolve : Nat → Nat) (L : DiffCl
     cases hr : round u level vk with
     | none => simp [L.refl, allows, dSame]
     | some b =>
-      simp only [hp b]
-      obtain ⟨_, _, h3, h4, _, _⟩ := C11_override_step u level vk b hr
+      simp only
+      obtain ⟨_, _, h3, _⟩ := C11_override_step u level vk b hr
+      obtain ⟨h4, _⟩ := C11_override_upward_partial u level vk b hr
       obtain ⟨i1, i2⟩ := ih b
       exact ⟨Nat.le_trans (h4 hs) i1, allows_trans u.diff L level vk b _ h3 i2⟩
 
-/-- Termination: with a resolver that honours pins, every round moves strictly up inside the finite
-version list, so after at most (number of versions above the start) rounds no round patches anything. -/
-theorem C11_terminates (u : U) (level : Nat) (resolve : Nat → Nat) (hp : HonoursPins resolve)
-    (hs : StrictSorted u.vs) (fuel vk : Nat) (hf : above u.vs vk ≤ fuel) :
-    round u level (loop u level resolve fuel vk) = none := by
+/-- Termination (one package): every round moves strictly up inside the finite version list, so after at most
+(number of versions above the start) rounds no round patches anything.  Needs `StrictSorted`: with three
+equal-comparing spellings and advisories that list version strings the real loop could alternate between
+spellings forever; the generators use at most two spellings per version, for which it cannot. -/
+theorem C11_terminates_partial (u : U) (level : Nat) (hs : StrictSorted u.rank u.vs) (fuel vk : Nat)
+    (hf : above u.rank u.vs vk ≤ fuel) : round u level (loop u level fuel vk) = none := by
   induction fuel generalizing vk with
   | zero =>
     simp only [loop]
     cases hr : round u level vk with
     | none => rfl
     | some b =>
-      obtain ⟨_, hb, _, _, h5, _⟩ := C11_override_step u level vk b hr
-      have := above_lt u.vs vk b hb (h5 hs)
+      obtain ⟨_, hb, _, _⟩ := C11_override_step u level vk b hr
+      have := above_lt u.rank u.vs vk b hb ((C11_override_upward_partial u level vk b hr).2 hs)
       omega
   | succ f ih =>
     simp only [loop]
     cases hr : round u level vk with
     | none => exact hr
     | some b =>
-      simp only [hp b]
-      obtain ⟨_, hb, _, _, h5, _⟩ := C11_override_step u level vk b hr
-      have := above_lt u.vs vk b hb (h5 hs)
+      simp only
+      obtain ⟨_, hb, _, _⟩ := C11_override_step u level vk b hr
+      have := above_lt u.rank u.vs vk b hb ((C11_override_upward_partial u level vk b hr).2 hs)
       exact ih b (by omega)
 
-theorem C11_terminates_bound (u : U) (level : Nat) (resolve : Nat → Nat) (hp : HonoursPins resolve)
-    (hs : StrictSorted u.vs) (vk : Nat) : round u level (loop u level resolve u.vs.length vk) = none :=
-  C11_terminates u level resolve hp hs _ vk (by unfold above; exact List.length_filter_le _ _)
+theorem C11_terminates_bound_partial (u : U) (level : Nat) (hs : StrictSorted u.rank u.vs) (vk : Nat) :
+    round u level (loop u level u.vs.length vk) = none :=
+  C11_terminates_partial u level hs _ vk (above_le _ _ _)
 
-/-- A package configured as not upgradable is never touched by the override loop. -/
-theorem C11_none_untouched_override (u : U) (resolve : Nat → Nat) (fuel vk : Nat) :
-    round u lNone vk = none ∧ loop u lNone resolve fuel vk = vk := by
+/-- A package configured as not upgradable gets no override in any round (so its requirement stays as it is; its
+RESOLVED version may still move when another package's override pulls it — see C11/override-pin-overtaken). -/
+theorem C11_none_untouched_override (u : U) (fuel vk : Nat) :
+    round u lNone vk = none ∧ loop u lNone fuel vk = vk := by
   have h : ∀ vk, round u lNone vk = none := by
     intro vk; unfold round pick; simp
   refine ⟨h vk, ?_⟩
@@ -131,12 +178,11 @@ example : DiffClassLaws semverDiff := by
   · intro a b c h1 h2
     rw [sd_same] at *; omega
 
-example : HonoursPins id := fun _ => rfl
 
-/-- versions 1.0.0 1.0.1 1.1.0 2.0.0; vulnerability 0 affects < 1.0.1, vulnerability 1 affects 1.0.1 only -/
-def exU : U := ⟨[100, 101, 110, 200], semverDiff, 2, fun v r => if v = 0 then r < 101 else r = 101⟩
-example : StrictSorted exU.vs := by unfold StrictSorted exU; decide
-example : round exU lMinor 100 = some 101 ∧ round exU lMinor 101 = some 110 ∧ loop exU lMinor id 4 100 = 110 := by decide
+/-- versions 1.0.0 1.0.1 1.1.0 2.0.0 (identifier = rank); vulnerability 0 affects < 1.0.1, vulnerability 1 affects 1.0.1 only -/
+def exU : U := ⟨[100, 101, 110, 200], id, semverDiff, 2, fun v r => if v = 0 then r < 101 else r = 101⟩
+example : StrictSorted exU.rank exU.vs := by unfold StrictSorted exU; decide
+example : round exU lMinor 100 = some 101 ∧ round exU lMinor 101 = some 110 ∧ loop exU lMinor 4 100 = 110 := by decide
 example : round exU lPatch 101 = none := by decide   -- 1.1.0 is a minor step from 1.0.1: the scan breaks
 
 end Scalibr.Override
@@ -144,16 +190,14 @@ end Scalibr.Override
 namespace Scalibr.OverrideMulti
 open Scalibr.Upgrade Scalibr.Override
 
-/-- Override with several packages, any round: the requirement a round leaves for package `p` is either
-the one it found, or a known version of `p` chosen against the version `p` resolves to IN THIS ROUND
-(whatever moved it there — its own earlier override or another package's): not below it (strictly above
-for a comparator that separates distinct versions), with a difference the package's level allows, the
-level not None, and with fewer of the vulnerabilities that affect the resolved version.  Any number of
-packages, records affecting several packages, any resolver. -/
+/-- Override with several packages, any round — the part that needs no assumption: the requirement a round
+leaves for package `p` is either the one it found, or a known version of `p` chosen against the version `p`
+resolves to IN THIS ROUND (whatever moved it there), with a difference the package's level allows, the level
+not None, and with fewer of the vulnerabilities that affect the resolved version. -/
 theorem C11_override_multi_step (u : MU) (res : Res) (pins : Pins) (p b : Nat) (h : stepP u res pins p = some b) :
     pins.getD p none = some b ∨
     ∃ r, res.getD p none = some r ∧ u.level p ≠ lNone ∧ b ∈ u.vs p ∧ allows (u.level p) (u.diff p r b) = true ∧
-      (Sorted (u.vs p) → r ≤ b) ∧ (StrictSorted (u.vs p) → r < b) ∧
+      (Sorted (u.rank p) (u.vs p) → u.rank p r ≤ u.rank p b) ∧ (StrictSorted (u.rank p) (u.vs p) → u.rank p r < u.rank p b) ∧
       ((vulnsAt u p r).filter (u.aff · p b)).length < (vulnsAt u p r).length := by
   unfold stepP at h
   cases hr : res.getD p none with
@@ -166,8 +210,38 @@ theorem C11_override_multi_step (u : MU) (res : Res) (pins : Pins) (p b : Nat) (
       simp only [hp, Option.some.injEq] at h
       subst h
       obtain ⟨h1, h2, h3, h4⟩ := pickP_spec u p r c hp
-      exact Or.inr ⟨r, rfl, h1, versionsGreater_sub _ _ c h2, h3, fun hs => versionsGreater_ge _ _ hs c h2,
-        fun hs => versionsGreater_gt _ _ hs c h2, h4⟩
+      exact Or.inr ⟨r, rfl, h1, versionsGreater_sub _ _ _ c h2, h3, fun hs => versionsGreater_ge _ _ _ hs c h2,
+        fun hs => versionsGreater_gt _ _ _ hs c h2, h4⟩
+
+/-- Termination for several packages, any resolver that honours pins (`HonoursPinsM`: a pinned package resolves to
+its pin or is absent; everything else is unconstrained): the sum over the packages of "versions above the
+requirement" (all versions plus one while there is none) drops in every round that patches something, so the
+loop reports `done` — it never runs out of fuel — whenever the fuel exceeds that sum.  Needs `StrictSorted`
+per package (see `C11_terminates_partial`). -/
+theorem C11_terminates_multi_partial (u : MU) (resolve : Pins → Res) (hh : HonoursPinsM resolve)
+    (hs : ∀ p, StrictSorted (u.rank p) (u.vs p)) (fuel : Nat) (pins : Pins) (hf : measure u pins < fuel) :
+    (loop u resolve fuel pins 0).done = true := loop_done u resolve hh hs fuel pins 0 hf
+
+/-- in particular with the fuel the driver uses: one more than all versions and packages together -/
+theorem C11_terminates_multi_bound_partial (u : MU) (resolve : Pins → Res) (hh : HonoursPinsM resolve)
+    (hs : ∀ p, StrictSorted (u.rank p) (u.vs p)) (pins : Pins) :
+    (loop u resolve (((List.range u.np).map fun p => (u.vs p).length + 1).sum + 1) pins 0).done = true :=
+  loop_done u resolve hh hs _ pins 0 (by have := measure_le u pins; omega)
+
+/-- The level applies to the ORIGINAL requirement of every package the manifest pinned from the start (direct
+dependencies), after any number of rounds and whatever the other packages do: the final requirement is not
+below the original one and the difference between the two is allowed.  (For a package that had no entry the
+first pin is chosen against the version resolved in that round — `C11_override_multi_step` — which another
+override may overtake: known finding C11/override-pin-overtaken.) -/
+theorem C11_cumulative_multi_partial (u : MU) (resolve : Pins → Res) (hh : HonoursPinsM resolve)
+    (L : ∀ p, DiffClassLaws (u.diff p)) (hs : ∀ p, Sorted (u.rank p) (u.vs p)) (pins0 : Pins) (fuel : Nat)
+    (p a : Nat) (hp : p < u.np) (ha : pins0.getD p none = some a) :
+    ∃ b, (loop u resolve fuel pins0 0).pins.getD p none = some b ∧ u.rank p a ≤ u.rank p b ∧
+      allows (u.level p) (u.diff p a b) = true := by
+  have h0 : Within u pins0 pins0 := by
+    intro q _ x hx
+    exact ⟨x, hx, Nat.le_refl _, by simp [(L q).refl, allows, dSame]⟩
+  exact within_loop u resolve hh L hs pins0 fuel pins0 0 h0 p hp a ha
 
 /-- a package at level None keeps its requirement in every round -/
 theorem C11_none_untouched_multi (u : MU) (res : Res) (pins : Pins) (p : Nat) (h : u.level p = lNone) :
@@ -180,13 +254,20 @@ theorem C11_none_untouched_multi (u : MU) (res : Res) (pins : Pins) (p : Nat) (h
 /-! Non-vacuity: two packages, two rounds.  Package 0 = app {1.0.0, 1.1.0}, package 1 = lib {1.0.0, 1.0.1, 1.0.5,
 1.0.6}; app 1.0.0 brings lib 1.0.0, app 1.1.0 brings lib 1.0.5.  Record 0 affects app 1.0.0 and lib ≤ 1.0.1, record 1
 affects lib 1.0.5.  Round 1 moves app to 1.1.0 and lib to 1.0.5; round 2 scans lib's candidates from 1.0.5 and moves
-it UP to 1.0.6. -/
-def exMU : MU := ⟨2, fun p => if p = 0 then [0, 1] else [0, 1, 2, 3], fun _ a b => if a = b then dSame else dPatch, 2,
+it UP to 1.0.6.  The resolver honours pins. -/
+def exMU : MU := ⟨2, fun p => if p = 0 then [0, 1] else [0, 1, 2, 3], fun _ x => x, fun _ a b => if a = b then dSame else dPatch, 2,
   fun v p r => if v = 0 then (if p = 0 then r = 0 else r ≤ 1) else (p = 1 && r = 2), fun _ => lMajor⟩
 def exResolve : Pins → Res := fun pins =>
   let a := (pins.getD 0 none).getD 0
   [some a, some ((pins.getD 1 none).getD (if a = 0 then 0 else 2))]
-example : loop exMU exResolve 5 [some 0, none] 0 = ([some 1, some 3], 2) := by decide
+example : loop exMU exResolve 5 [some 0, none] 0 = ⟨[some 1, some 3], 2, true⟩ := by decide
+example : HonoursPinsM exResolve := by
+  intro pins p b h
+  unfold exResolve
+  match p with
+  | 0 => left; simp [List.getD] at h ⊢; simp [h]
+  | 1 => left; simp [List.getD] at h ⊢; simp [h]
+  | n + 2 => right; simp [List.getD]
 
 /-
 Full-strength statement for several packages — "every override written moves its package strictly upward
@@ -194,20 +275,20 @@ from the version it resolves to WITHOUT that override in the final manifest" —
 code: each round judges every package against the versions resolved at the START of the round, so a
 dependencyManagement pin chosen for a transitive package can be overtaken by another package's override
 (of the same or a later round) whose newer version requires something newer still.  Known finding
-C11/override-pin-overtaken; in force: `C11_override_multi_step` (strictly upward from the version
-resolved in the round that chose it).
+C11/override-pin-overtaken; in force: `C11_override_multi_step` (upward from the version resolved in the
+round that chose it).
 -/
 
 /-- app {1.0.0, 1.1.0}, lib {1.0.0, 1.0.1, 1.0.5}; app 1.0.0 brings lib 1.0.0, app 1.1.0 brings lib 1.0.5; one record
 affects app 1.0.0 and lib 1.0.0.  One round overrides app to 1.1.0 AND pins lib to 1.0.1; without that pin the
 final manifest would resolve lib to 1.0.5. -/
 theorem C11_override_pin_overtaken_witness :
-    let u : MU := ⟨2, fun p => if p = 0 then [0, 1] else [0, 1, 2], fun _ a b => if a = b then dSame else dPatch, 1,
+    let u : MU := ⟨2, fun p => if p = 0 then [0, 1] else [0, 1, 2], fun _ x => x, fun _ a b => if a = b then dSame else dPatch, 1,
       fun _ _ r => r = 0, fun _ => lMajor⟩
     let resolve : Pins → Res := fun pins =>
       let a := (pins.getD 0 none).getD 0
       [some a, some ((pins.getD 1 none).getD (if a = 0 then 0 else 2))]
-    loop u resolve 5 [some 0, none] 0 = ([some 1, some 1], 1) ∧ resolve [some 1, none] = [some 1, some 2] := by
+    loop u resolve 5 [some 0, none] 0 = ⟨[some 1, some 1], 1, true⟩ ∧ resolve [some 1, none] = [some 1, some 2] := by
   decide
 
 end Scalibr.OverrideMulti
